@@ -1,6 +1,6 @@
 """C08 - Multiprocessor.filter: spec/Multiproc.tla (exhaustive), spec/MultiprocTrace.tla (binding).
 
-1. TLC checks Multiproc.tla exhaustively over a grid of (P, Max, N, fault subsets, abandon) chosen
+1. TLC checks Multiproc.tla exhaustively over a grid of (P, Max, N, outputs per item, fault subsets, abandon) chosen
    in Init: exactly-once, conservation, <= Max per worker, raise-iff-fault, termination under
    weak fairness.
 2. The repository's Multiprocessor.filter runs on the virtual multiprocessing layer
@@ -36,19 +36,34 @@ KINDS = [Fault, FaultAssert, FaultEOF, FaultOS, FaultPipe, FaultKey]
 PLAIN = [ValueError, AssertionError, EOFError, FileNotFoundError, BrokenPipeError, KeyError]
 
 
+# Outputs per item (the spec's cfg.Outs; the same shapes as MC_Multiproc.tla!OutsOf).  "one" is a plain 1:1 filter returning a
+# value; the others are generator filters (Foreach flattens iterator results) yielding several outputs for an item or none at all.
+SHAPES = dict(one=lambda x: 1, fan=lambda x: 2, sparse=lambda x: (x + 1) % 2, mix=lambda x: (x + 1) % 3, none=lambda x: 0)
+def outs_of(shape, N): return [SHAPES[shape](x) for x in range(1, N + 1)]
+
+
 class F:
-    """The wrapped filter: identity on item ids, raising for the faulty ones."""
-    def __init__(self, bad=(), kind=0): self.bad = set(bad); self.kind = kind
+    """The wrapped filter: raising for the faulty items; otherwise identity on item ids (outs=None: a plain function result) or a
+    generator yielding outs[x-1] outputs x, x+10, x+20, ... for item x (Multiproc.tla!OutId)."""
+    def __init__(self, bad=(), kind=0, outs=None): self.bad = set(bad); self.kind = kind; self.outs = outs
     def filter(self, x):
+        if self.outs is not None: return self._gen(x)
         if x in self.bad: raise KINDS[self.kind % len(KINDS)](x)
         return x
+    def _gen(self, x):
+        if x in self.bad: raise KINDS[self.kind % len(KINDS)](x)
+        for j in range(self.outs[x - 1]): yield x + 10 * j
 
 
 class PidF:
-    def __init__(self, bad=(), kind=0): self.bad = set(bad); self.kind = kind
+    def __init__(self, bad=(), kind=0, outs=None): self.bad = set(bad); self.kind = kind; self.outs = outs
     def filter(self, x):
+        if self.outs is not None: return self._gen(x)
         if x in self.bad: raise PLAIN[self.kind % len(PLAIN)]("bad %d" % x)
-        return (os.getpid(), x)
+        return (os.getpid(), x, 0)
+    def _gen(self, x):
+        if x in self.bad: raise PLAIN[self.kind % len(PLAIN)]("bad %d" % x)
+        for j in range(self.outs[(x - 1) % 100]): yield (os.getpid(), x, j)
 
 
 def _label(x):
@@ -66,7 +81,8 @@ def run_virtual(policy, cfg, max_steps=20000):
     s = Sched(policy, max_steps=max_steps)
     vsched.S = s
     out = {"got": []}
-    mp = M.Multiprocessor(F(cfg["Faults"], cfg.get("kind", 0)), cfg["P"], cfg["Max"])
+    outs = cfg.get("Outs")        # None = the 1:1 filter returning a plain value
+    mp = M.Multiprocessor(F(cfg["Faults"], cfg.get("kind", 0), outs), cfg["P"], cfg["Max"])
     # private attributes are observed when they exist; -1 = not observable (the trace specification then skips that field).
     # Before the call has set them up the spec's initial values are logged (the attributes appear during filter()).
     started = {"v": False}
@@ -143,19 +159,21 @@ def run_virtual(policy, cfg, max_steps=20000):
         if k == "mainEnd": ev["outcome"] = e["outcome"]; ev["got"] = e["got"]
         evs.append(ev)
     if cfg["N"] == 0: evs = []     # the call returns before creating anything: the spec's initial state is already final
-    tcfg = dict(P=cfg["P"], Max=cfg["Max"], N=cfg["N"], Faults=sorted(cfg["Faults"]), Abandon=bool(cfg.get("abandon_after")))
+    tcfg = dict(P=cfg["P"], Max=cfg["Max"], N=cfg["N"], Outs=list(outs) if outs is not None else [1] * cfg["N"], Faults=sorted(cfg["Faults"]), Abandon=bool(cfg.get("abandon_after")))
     return dict(trace=dict(cfg=tcfg, ev=evs), verdict=verdict, out=out, choices=list(s.choices), nen=list(s.nenabled))
 
 
 def python_checks(res, cfg):
     """Schedule-independent oracle straight from the property text (independent of TLC)."""
     out = res["out"]; N = cfg["N"]; bad = set(cfg["Faults"]); got = out["got"]
+    outs = cfg.get("Outs") or [1] * N
+    exp = lambda items: sorted(x + 10 * j for x in items for j in range(outs[x - 1]))     # the filter's outputs, item by item
     probs = []
     if len(set(got)) != len(got): probs.append("duplicate outputs %s" % got)
-    if not set(got) <= set(range(1, N + 1)) - bad: probs.append("unexpected outputs %s" % got)
+    if not set(got) <= set(exp(set(range(1, N + 1)) - bad)): probs.append("unexpected outputs %s" % got)
     oc = out.get("outcome")
     if oc == "error": probs.append("unexpected exception %s" % out.get("err"))
-    if oc == "done" and (bad or sorted(got) != list(range(1, N + 1))): probs.append("completed normally with outputs %s of %d items, faults %s" % (sorted(got), N, sorted(bad)))
+    if oc == "done" and (bad or sorted(got) != exp(range(1, N + 1))): probs.append("completed normally with outputs %s, the filter yields %s for the %d items, faults %s" % (sorted(got), exp(range(1, N + 1)), N, sorted(bad)))
     if oc == "raised" and out.get("exc") not in bad: probs.append("raised for %s which is not a faulty item" % out.get("exc"))
     return probs
 
@@ -174,6 +192,18 @@ def configs(rng, tier):
                     cs.append(dict(P=P, Max=Max, N=N, Faults=fs, kind=len(cs)))      # what is raised rotates through KINDS
                     if not fs and N >= 1:
                         for k in range(1, N + 1): cs.append(dict(P=P, Max=Max, N=N, Faults=[], abandon_after=k))
+    # filters that are not 1:1 (several outputs for an item / none for some items); fewer schedules each (field "few")
+    for P in Ps:
+        for Max in Ms:
+            if P == 1 and Max == 0: continue
+            for shape in ("fan", "sparse", "mix", "none"):
+                for N in ([2] if shape == "none" else [2, 3] if tier == "quick" else [1, 2, 3, 4]):
+                    outs = outs_of(shape, N); n_out = sum(outs)
+                    cs.append(dict(P=P, Max=Max, N=N, Outs=outs, Faults=[], kind=len(cs), few=True))
+                    if N >= 3 or tier != "quick":
+                        cs.append(dict(P=P, Max=Max, N=N, Outs=outs, Faults=[1 + len(cs) % N], kind=len(cs), few=True))
+                    if n_out >= 2 and (N >= 3 or tier != "quick"):
+                        cs.append(dict(P=P, Max=Max, N=N, Outs=outs, Faults=[], abandon_after=1 + len(cs) % (n_out - 1), few=True))
     return cs
 
 
@@ -198,12 +228,13 @@ def run(ctx):
     for cfg in cs:
         if cfg["N"] == 0:
             res = run_virtual(vsched.random_policy(random.Random(1)), cfg); record(res, cfg, dict(kind="random", sched_seed=1)); continue
-        for i in range(per_rand):
+        few = cfg.get("few")
+        for i in range(max(1, per_rand // 3) if few else per_rand):
             sseed = rng.randrange(1 << 30)
             record(run_virtual(vsched.random_policy(random.Random(sseed)), cfg), cfg, dict(kind="random", sched_seed=sseed))
         def one(policy):
             res = run_virtual(policy, cfg); return res["choices"], res["nen"], res
-        for k, res in enumerate(vsched.dfs(one, per_dfs)):
+        for k, res in enumerate(vsched.dfs(one, max(2, per_dfs // 3) if few else per_dfs)):
             record(res, cfg, dict(kind="dfs", n=k))
     if traces: ctx.sample(traces[len(traces) // 2], limit=1)
     rej = tracecheck.validate(ctx, "MultiprocTrace", "MultiprocTrace.cfg", traces, name="multiproc_trace", workers=16)
@@ -221,16 +252,17 @@ def run(ctx):
         got = list(M.Multiprocessor(F(), 1, 0).filter(list(range(1, N + 1)))); ctx.case("inproc%d" % N)
         if got != list(range(1, N + 1)): ctx.violation("inprocess", "in-process path returned %s" % got, dict(N=N))
     # ---- 3. real spawn processes ----
-    real = [(2, 0, 5, []), (2, 1, 4, []), (1, 2, 4, []), (2, 2, 3, [2])] if ctx.quick else \
-           [(p, m, n, f) for p in (1, 2, 3) for m in (0, 1, 2) for n in (0, 1, 5) for f in ([], [1]) if not (p == 1 and m == 0) and (not f or n >= 1)]
+    real = [(2, 0, 5, [], "one"), (2, 1, 4, [], "one"), (1, 2, 4, [], "one"), (2, 2, 3, [2], "one"), (2, 2, 4, [], "mix"), (1, 1, 2, [], "fan")] if ctx.quick else \
+           [(p, m, n, f, "one") for p in (1, 2, 3) for m in (0, 1, 2) for n in (0, 1, 5) for f in ([], [1]) if not (p == 1 and m == 0) and (not f or n >= 1)] + \
+           [(p, m, 5, f, sh) for p in (1, 2) for m in (0, 1, 2) for sh in ("fan", "sparse", "mix", "none") for f in ([], [3]) if not (p == 1 and m == 0)]
     code = r"""
 import sys, json, collections
 sys.path.insert(0, %r)
 from harness.drivers.c08 import PidF
 from coba.pipes.multiprocessing import Multiprocessor
 if __name__ == '__main__':
-    P, Max, N, bad, kind = json.loads(sys.argv[1])
-    m = Multiprocessor(PidF(bad, kind), P, Max); got2 = []; exc2 = None
+    P, Max, N, bad, kind, outs = json.loads(sys.argv[1])
+    m = Multiprocessor(PidF(bad, kind, outs), P, Max); got2 = []; exc2 = None
     try:
         got = list(m.filter(list(range(1, N + 1)))); exc = None
     except Exception as e:
@@ -242,26 +274,31 @@ if __name__ == '__main__':
     print(json.dumps(dict(got=got, exc=exc, got2=got2, exc2=exc2)))
 """ % os.path.dirname(os.path.dirname(os.path.dirname(os.path.abspath(__file__))))
     script = os.path.join(ctx.scratch, "real_spawn.py"); open(script, "w").write(code)
-    for ri, (P, Max, N, bad) in enumerate(real):
+    for ri, (P, Max, N, bad, shape) in enumerate(real):
+        outs = None if shape == "one" else outs_of(shape, N)
+        want = lambda first: sorted((x, j) for i, x in enumerate(range(first, first + N)) for j in range(outs[i] if outs else 1))
         try:
-            p = subprocess.run([sys.executable, "-W", "ignore", script, json.dumps([P, Max, N, bad, ri + 1])], capture_output=True, text=True, timeout=600)
+            p = subprocess.run([sys.executable, "-W", "ignore", script, json.dumps([P, Max, N, bad, ri + 1, outs])], capture_output=True, text=True, timeout=600)
             d = json.loads(p.stdout.strip().splitlines()[-1])
         except subprocess.TimeoutExpired:
-            ctx.violation("real-hang", "real spawn run did not terminate within 600 s", dict(P=P, Max=Max, N=N, bad=bad)); continue
+            ctx.violation("real-hang", "real spawn run did not terminate within 600 s", dict(P=P, Max=Max, N=N, bad=bad, outs=outs)); continue
         except Exception as e:
             raise RuntimeError("real spawn run failed: %s %s" % (p.stdout[-500:], p.stderr[-2000:]))
-        ctx.case("real%s" % ((P, Max, N, tuple(bad)),))
-        items = sorted(x for _, x in d["got"])
+        ctx.case("real%s" % ((P, Max, N, tuple(bad), shape),))
+        # per pid: the distinct ITEMS seen through its outputs (a lower bound of what it handled when some items yield nothing)
+        items = sorted((x, j) for _, x, j in d["got"])
         per = {}
-        for pid, x in d["got"]: per[pid] = per.get(pid, 0) + 1
+        for pid, x, j in d["got"]: per.setdefault(pid, set()).add(x)
+        per = {k: len(v) for k, v in per.items()}
         if bad:
             if not d["exc"] or "bad" not in d["exc"]: ctx.violation("real-noraise", "faulty item but no error: %s" % d, dict(P=P, Max=Max, N=N, bad=bad))
         else:
-            if d["exc"] or items != list(range(1, N + 1)): ctx.violation("real-outputs", "outputs %s exc %s" % (items, d["exc"]), dict(P=P, Max=Max, N=N, bad=bad))
+            if d["exc"] or items != want(1): ctx.violation("real-outputs", "outputs (item, index) %s, the filter yields %s item by item; exc %s" % (items, want(1), d["exc"]), dict(P=P, Max=Max, N=N, bad=bad, outs=outs))
             if Max and per and max(per.values()) > Max: ctx.violation("real-maxtasks", "a worker handled %d > %d items" % (max(per.values()), Max), dict(P=P, Max=Max, N=N, per=per))
-        items2 = sorted(x for _, x in d["got2"]); per2 = {}
-        for pid, x in d["got2"]: per2[pid] = per2.get(pid, 0) + 1
-        if d["exc2"] or items2 != list(range(101, 101 + N)):
+        items2 = sorted((x, j) for _, x, j in d["got2"]); per2 = {}
+        for pid, x, j in d["got2"]: per2.setdefault(pid, set()).add(x)
+        per2 = {k: len(v) for k, v in per2.items()}
+        if d["exc2"] or items2 != want(101):
             ctx.violation("real-second-call", "a second filter() call on the same Multiprocessor gave outputs %s exc %s (the first call: %s)" % (items2, d["exc2"], "raised" if d["exc"] else "completed"), dict(P=P, Max=Max, N=N, bad=bad))
         elif Max and per2 and max(per2.values()) > Max:
             ctx.violation("real-maxtasks", "second call: a worker handled %d > %d items" % (max(per2.values()), Max), dict(P=P, Max=Max, N=N, per=per2))
